@@ -46,14 +46,16 @@ StrCalls ==
   {Call("value", <<v>>) : v \in StrVals \cup {VInt(1), VNone, VBytes(<<A>>)}}
   \cup StrLenCalls
   \cup {Call("alphabet", <<v>>) : v \in {VStr(<<A, B>>), VStr(<<A, B, C>>), VStr(<<>>), VInt(1)}}
-  \cup {Call("contains", <<v>>) : v \in {VStr(<<B>>), VStr(<<C>>), VStr(<<>>), VStr(<<123>>), VNone}}
+  \cup {Call("contains", <<v>>) : v \in {VStr(<<B>>), VStr(<<C>>), VStr(<<>>), VStr(<<123>>), VStr(<<B, A>>), VNone}}
   \cup {Call("regex", <<v>>) : v \in {PatAPlus, PatAbAnch, PatC, PatDigitNL, PatNegCat, VBadPat("error"),
                                       VBadPat("overflow"), VInt(1)}}
 
 BoolCalls == {Call("value", <<v>>) : v \in {VBool(TRUE), VBool(FALSE), VInt(1), VInt(0), VNone, VStr(<<A>>)}}
 BytesCalls == {Call("value", <<v>>) : v \in {VBytes(<<>>), VBytes(<<A>>), VStr(<<A>>), VInt(1), VNone,
                                              VObj("bytearray_ab", <<>>, NoneOpt)}}
-UuidCalls == {Call("value", <<v>>) : v \in {VUuid(4, 0), VUuid(4, 1), VUuid(1, 0), VStr(<<A>>), VNone, VInt(1)}}
+\* VUuid(0, 1): version nibble 4 but not the RFC 4122 variant -- Python reports version None
+UuidCalls == {Call("value", <<v>>) : v \in {VUuid(4, 0), VUuid(4, 1), VUuid(1, 0), VUuid(0, 0), VUuid(0, 1),
+                                            VStr(<<A>>), VNone, VInt(1)}}
 DatetimeCalls == {Call("value", <<v>>) : v \in {VDatetime(0), VDatetime(1), VDate(0), VStr(<<A>>), VNone}}
 DateCalls == {Call("value", <<v>>) : v \in {VDate(0), VDate(1), VDatetime(0), VStr(<<A>>), VInt(1)}}
 
@@ -96,6 +98,7 @@ AnyCalls == { Call("value", <<ASchema(SInt1)>>), Call("value", <<ASchema(SInt1),
               Call("value", <<ASchema(SAnyIS), ASchema(SInt1)>>),
               Call("value", <<ASchema([BareAny EXCEPT !.types = Some(<<SAnyIS, BareNone>>)]), ASchema(BareAny)>>),
               Call("value", <<VInt(5)>>), Call("value", <<ASchema(SInt1), VNone>>),
+              Call("value", <<VNil>>), Call("value", <<ASchema(SInt1), VNil>>), Call("value", <<VEllipsis>>),
               Call("value", <<VList(<<ASchema(SInt1)>>)>>) }
 
 Calls(t) == CASE t = "int" -> IntCalls [] t = "float" -> FloatCalls [] t = "str" -> StrCalls
@@ -107,8 +110,11 @@ Calls(t) == CASE t = "int" -> IntCalls [] t = "float" -> FloatCalls [] t = "str"
 IsValueCall(c) == c.m = "value"
 \* `receiver | other` for a receiver of any type: schemas (plain, union, bare any) and non-schemas
 OrCalls == {Call("or", <<v>>) : v \in {ASchema(SInt1), ASchema(SAnyIS), ASchema(BareAny), ASchema(BareNone),
-                                       VInt(5), VNone, VEllipsis}}
-CallsWithOr(t) == Calls(t) \cup OrCalls
+                                       VInt(5), VNone, VEllipsis, VNil}}
+\* nan is a float: declared as a value only in the C10 machine (its open finding
+\* float.nan_value_rejects_itself would otherwise resurface in every property that compares,
+\* prints or generates from schemas)
+CallsWithOr(t) == Calls(t) \cup OrCalls \cup (IF t = "float" THEN {Call("value", <<VNan>>)} ELSE {})
 
 Refinements(t) == {c \in Calls(t) : ~IsValueCall(c)}
 ValueCalls(t) == {c \in Calls(t) : IsValueCall(c)}
